@@ -76,6 +76,9 @@ class C05(Engine):
             content = f["content"]
             if len(content) > 8192 and q:
                 continue
+            if q and idx > 28000:
+                self.count("quick_cap", "base programs not enumerated (volume cap of the quick tier)")
+                continue
             stem, ext = f["name"].rsplit(".", 1)
             other = "h" if ext == "c" else "c"
             names = [f["name"], f"{stem}.{other}"]
